@@ -36,6 +36,26 @@ Proof. intros. unfold zlen, lenZ, zs. rewrite map_length. reflexivity. Qed.
 Lemma slen_str_of : forall b, slen (str_of b) = lenZ b.
 Proof. unfold slen, lenZ. induction b as [|x b IH]; cbn [str_of String.length List.length]; [reflexivity|lia]. Qed.
 
+Lemma zlen_gstmts : forall ss, zlen (map gstmt ss) = Z.of_nat (List.length ss).
+Proof. intros. unfold zlen. rewrite map_length. reflexivity. Qed.
+
+(* When the statement loop is a function of its own (it returns the decision; e.g. after the threshold test was
+   extracted into a helper), it is existsb: the `fix` is taken from the goal and specified by induction. *)
+Ltac bool_loop c ss :=
+  lazymatch goal with
+  | |- context [?F (map gstmt ss)] =>
+      is_fix F;
+      let LOOP := fresh "LOOP" in
+      let Hloop := fresh "Hloop" in
+      pose (LOOP := F);
+      assert (Hloop : forall l, LOOP (map gstmt l) = existsb (fun s => Z.leb (m_size c) (lenZ (s_sql s))) l)
+        by (let l := fresh "l" in let s0 := fresh "s0" in let IHl := fresh "IHl" in
+            induction l as [|s0 l IHl]; [reflexivity|];
+            unfold LOOP; cbn [map existsb gstmt proto_Statement_Sql]; fold LOOP; rewrite slen_str_of;
+            destruct (Z.leb (m_size c) (lenZ (s_sql s0))); [reflexivity|exact IHl]);
+      change (F (map gstmt ss)) with (LOOP (map gstmt ss)); rewrite !Hloop; clear Hloop; clearbody LOOP
+  end.
+
 (* a request as the Go function sees it: its statements and its encoding (None: pb.Marshal fails) *)
 Definition req : Type := (list stmt * option bytes)%type.
 
@@ -64,15 +84,16 @@ Section Marshal.
     assert (Hgz' : gz_compress (zs raw) = (zs gz, None)) by (unfold gz_compress; rewrite ns_zs, Hgz; reflexivity).
     unfold gen_marshal, RequestMarshaler_Marshal, want_compress, choose, rep, get_request, get_statements, pb_marshal. aux.
     cbn [fst snd RequestMarshaler_BatchThreshold RequestMarshaler_SizeThreshold RequestMarshaler_ForceCompression].
-    unfold zlen at 1. rewrite map_length.
+    rewrite ?zlen_gstmts.
     destruct (Z.leb (m_batch c) (Z.of_nat (List.length ss))) eqn:B.
     - rewrite Hgz', !zlen_zs. gen_cases.
-    - clear B. induction ss as [|s ss IH]; cbn [map existsb].
-      + gen_cases.
-      + cbn [gstmt proto_Statement_Sql]. rewrite slen_str_of.
-        destruct (Z.leb (m_size c) (lenZ (s_sql s))); cbn [orb].
-        * rewrite Hgz', !zlen_zs. gen_cases.
-        * apply IH.
+    - clear B.
+      first [ bool_loop c ss; rewrite Hgz', !zlen_zs; solve [gen_cases]
+            | induction ss as [|s ss IH]; cbn [map existsb];
+              [ gen_cases
+              | cbn [gstmt proto_Statement_Sql]; rewrite slen_str_of;
+                destruct (Z.leb (m_size c) (lenZ (s_sql s))); cbn [orb];
+                [ rewrite Hgz', !zlen_zs; gen_cases | apply IH ] ] ].
   Qed.
 End Marshal.
 
@@ -80,11 +101,12 @@ End Marshal.
 Lemma gen_Marshal_err : forall E err gzip c ss,
   gen_marshal E err gzip c (ss, None) = ([], false, Some err).
 Proof.
-  intros. unfold gen_marshal, RequestMarshaler_Marshal, pb_marshal, rep, get_request, get_statements.
+  intros. unfold gen_marshal, RequestMarshaler_Marshal, pb_marshal, rep, get_request, get_statements. aux.
   cbn [fst snd RequestMarshaler_BatchThreshold RequestMarshaler_SizeThreshold RequestMarshaler_ForceCompression].
-  destruct (Z.leb _ _); [reflexivity|].
-  induction ss as [|s ss IH]; cbn [map]; [reflexivity|].
-  destruct (Z.leb _ _); [reflexivity|apply IH].
+  first [ reflexivity
+        | destruct (Z.leb _ _); [reflexivity|];
+          induction ss as [|s ss IH]; cbn [map]; [reflexivity|];
+          destruct (Z.leb _ _); [reflexivity|apply IH] ].
 Qed.
 
 (* gzCompress failing matters only if compression was wanted *)
@@ -94,14 +116,16 @@ Lemma gen_Marshal_gzerr : forall E err gzip c ss raw, gzip raw = None ->
 Proof.
   intros E err gzip c ss raw Hgz.
   assert (Hgz' : gz_compress E err gzip (zs raw) = ([], Some err)) by (unfold gz_compress; rewrite ns_zs, Hgz; reflexivity).
-  unfold gen_marshal, RequestMarshaler_Marshal, want_compress, rep, get_request, get_statements, pb_marshal.
+  unfold gen_marshal, RequestMarshaler_Marshal, want_compress, rep, get_request, get_statements, pb_marshal. aux.
   cbn [fst snd RequestMarshaler_BatchThreshold RequestMarshaler_SizeThreshold RequestMarshaler_ForceCompression].
-  unfold zlen at 1. rewrite map_length.
+  rewrite ?zlen_gstmts.
   destruct (Z.leb (m_batch c) (Z.of_nat (List.length ss))) eqn:B.
   - rewrite Hgz'. gen_cases.
-  - clear B. induction ss as [|s ss IH]; cbn [map existsb]; [gen_cases|].
-    cbn [gstmt proto_Statement_Sql]. rewrite slen_str_of.
-    destruct (Z.leb (m_size c) (lenZ (s_sql s))); cbn [orb]; [rewrite Hgz'; gen_cases|apply IH].
+  - clear B.
+    first [ bool_loop c ss; rewrite Hgz'; solve [gen_cases]
+          | induction ss as [|s ss IH]; cbn [map existsb]; [gen_cases|];
+            cbn [gstmt proto_Statement_Sql]; rewrite slen_str_of;
+            destruct (Z.leb (m_size c) (lenZ (s_sql s))); cbn [orb]; [rewrite Hgz'; gen_cases|apply IH] ].
 Qed.
 
 Lemma gen_marshal_eq : forall (E : Type) (err : E) (gzip : bytes -> option bytes),
